@@ -3,6 +3,7 @@
 from __future__ import annotations
 
 import itertools
+import math
 
 from vf.combi import digits, fresh
 from vf.guard import call as gcall, too_many_hangs
@@ -240,8 +241,44 @@ MIXED = [None, 0, "", (1,), 2.5]  # falsy / None / tuple / float labels
 BIG = [1000, "node-b", (1, (2, 3)), 2.5, -1000]  # labels of which equal copies are distinct objects (see vf.combi.fresh)
 
 
+K8_PAIRS = [(0, 1), (2, 3), (4, 5), (6, 7), (1, 3), (5, 7), (3, 7), (0, 6), (2, 5), (6, 1)]
+
+
+def _k8_chunk(params, lo, hi):
+    """kruskal on 8 nodes: every ordered list of k distinct pairs of K8_PAIRS, weights increasing with the list position
+    (so the solver meets the edges in list order): the union-find inside kruskal builds trees of rank 2-3, joins them
+    through non-root members and closes cycles. index -> permutation by the factorial number system."""
+    k = params
+    m = len(K8_PAIRS)
+    r = new_result()
+    for idx in range(lo, hi):
+        pool = list(range(m))
+        x = idx
+        seq = []
+        for i in range(k):
+            seq.append(pool.pop(x % (m - i)))
+            x //= m - i
+        edges = [(K8_PAIRS[j][0], K8_PAIRS[j][1], pos + 1) for pos, j in enumerate(seq)]
+        errs, label, nt = judge_kruskal(8, edges, True)
+        r["n"] += 1
+        r["outcomes"]["kruskal8:" + label] += 1
+        if nt:
+            r["nontrivial"] += 1
+        if not r["samples"]:
+            r["samples"].append({"n": 8, "edges": [list(e) for e in edges]})
+        for kind, detail in errs:
+            wit = {"function": "kruskal", "n": 8, "edges": [list(e) for e in edges], "allow_forest": True}
+            r["violations"].append(viol("kruskal", kind, wit, f"kruskal(8, {edges}, allow_forest=True): {detail}"))
+        if len(r["violations"]) >= 40 or too_many_hangs():
+            r["capped"] = True
+            break
+    return r
+
+
 def jobs(tier, seed):
     js = []
+    k8 = 8 if tier == "thorough" else 7
+    js.append(Job(f"n8_ordered_lists_of_{k8}_of_10_pairs", math.perm(len(K8_PAIRS), k8), _k8_chunk, k8, describe=f"kruskal(8, ...) on every ordered list of {k8} distinct pairs out of {K8_PAIRS}, weight = list position"))
     for n in (1, 2, 3, 4):
         js.append(Job(f"n{n}_over_absent-1012", 5 ** len(_pairs(n)), _simple_chunk, (n, A5, STR), describe="all graphs, per-pair weight in {absent,-1,0,1,2}; odd indices use string labels (every 4th: None/falsy/tuple/float labels) for prim"))
     js.append(Job("n3_selfloops", 125 * 27, _loops_chunk, None, describe="3 nodes with optional self loops of weight -1/1"))
